@@ -369,3 +369,15 @@ CHECKS["C22"] = dict(
     bounds="two MIntPoly operands, each over a subset of {x,y,z} (quick: 5 subsets {}, {x}, {y}, {x,y}, {x,y,z}; thorough: all 8; every ordered pair: equal, overlapping, disjoint, empty), 1 (2) terms with exponents 0..1 (0..2) and symbolic integer coefficients |c|<=2 (4); add, sub, mul, neg, square; evaluation homomorphism at a symbolic integer point |v|<=2 (3); as_symbolic/from_basic round trip",
     outside=["MExprPoly", "exponents above 2", "more than 3 variables"],
 )
+
+CHECKS["C36"] = dict(
+    src="C36.cpp", level="model_checking",
+    entries=[
+        dict(name="harness_c36_numer_denom", quick={"depth": 1}, thorough={"depth": 2, "_wall": 1700}),
+        dict(name="harness_c36_real_imag", quick={"B": 2}, thorough={"B": 5}),
+    ],
+    anchors=["SymEngine::as_numer_denom", "SymEngine::NumerDenomVisitor", "SymEngine::as_real_imag", "SymEngine::RealImagVisitor", "SymEngine::conjugate"],
+    bounds="as_numer_denom on operator trees of depth <= 1 (2) over {x, y, positive p, 2, -1/2, 3/4, -5/3, a symbolic integer} with neg, integer powers 2,-1,-2,3, rational powers of p and + - * /: n == e*d for all real x, y and positive p, no negative top-level exponents; as_real_imag on six shapes in w = sqrt(2) + I sqrt(3), a symbolic Gaussian integer z and a symbolic integer c (products, powers 2, 3, -1) -- as_real_imag rejects symbols by design; conjugate of a Gaussian integer",
+    outside=["rewrite_as_exp/sin/cos, expand_as_exp, trig_to_sqrt (need complex exponential identities that the uninterpreted-function oracle cannot decide)", "as_real_imag of functions"],
+    assumptions=["oracle D2 (vlib/veval.h) and a pairwise complex evaluator in the harness"],
+)
